@@ -3,7 +3,7 @@ import os, sys, json, binascii
 import common, tlc, zw, dwarfchk as D
 
 PID = "C06"
-Q_ATTR = "entry (|D| [D offset, [D attribute [label value, [value]]], [D raw attribute label value]])"
+Q_ATTR = "entry (|D| [D, [D attribute [label value, [value]]], [D raw attribute label value]])"
 ATS = ["name", "decl_line", "type", "external", "sibling", "declaration", "specification", "abstract_origin"]
 LAWS = []
 for a in ATS:
@@ -36,15 +36,26 @@ def run(tier):
     for n in (3, 4):
         allv += D.gen_forests("attr", n, wd)
     total_attr = len(allv)
+    # the same chains running from the compile unit into a partial unit of a dwz alt file (DW_FORM_GNU_ref_alt);
+    # the DIEs of the two files sit at the same offsets
+    altv = []
+    for n in ((5,) if tier == "quick" else (5, 6)):
+        altv += D.gen_forests("altattr", n, wd)
+    total_alt = len(altv)
+    if tier == "quick" and len(altv) > 400:
+        altv = rng.sample(altv, 400)
     if tier == "quick" and len(allv) > 500:
         # the model flags every forest on which the mechanism would break a law; replay a seeded sample and
         # all forests with both references on one DIE
         both = [v for v in allv if any(sum(1 for a in d["attrs"] if a["n"] in ("spec", "orig")) == 2 for d in v["forest"]["die"])]
         rest = [v for v in allv if v not in both]
         allv = rng.sample(both, min(350, len(both))) + rng.sample(rest, min(250, len(rest)))
+    allv += altv
     navv = []
     for n in ((4, 5) if tier == "quick" else (4, 5, 6)):
         navv += D.gen_forests("nav", n, wd)
+    for n in ((4, 5) if tier == "quick" else (4, 5, 6)):
+        navv += D.gen_forests("altnav", n, wd)
     badm = [v for v in allv if not v["ok"]["attr"]]
     if badm:
         vd.observe("model:find_attribute and attribute_producer disagree", {"forest": badm[0]["forest"]})
@@ -73,7 +84,7 @@ def run(tier):
             vd.observe(key + " attribute query failed", {"observed": r[0], "file": b.path}); continue
         for x in r[0]["results"]:
             g = x[-1]["v"]
-            d = b.rev.get(D.cst(g[0]), -1)
+            d = D.ident(b, g[0])
             got = []
             for a in g[1]["v"]:
                 nm = D.cst(a["v"][0])
@@ -106,8 +117,8 @@ def run(tier):
     nbuilt = D.build_all(navv, wd, "cnav")
     jobs = []
     for v, b in zip(navv, nbuilt):
-        jobs.append((b.path, "entry (|D| [D offset, [D child offset]])", False))
-        jobs.append((b.path, "unit root offset", False))
+        jobs.append((b.path, "entry (|D| [D, [D child]])", False))
+        jobs.append((b.path, "unit root", False))
         for n_, q in LAWS[-4:-2]: jobs.append((b.path, q, False))
     nrecs = D.run_queries(drv, jobs, wd, "cnav")
     for i, (v, b) in enumerate(zip(navv, nbuilt)):
@@ -116,13 +127,13 @@ def run(tier):
         key = "generated forest with imports:"
         if not r[0] or r[0].get("status") != "ok":
             vd.observe(key + " query failed", {"observed": r[0], "file": b.path}); continue
-        got = [(b.rev.get(D.cst(x[-1]["v"][0]), -1), [b.rev.get(D.cst(k), -1) for k in x[-1]["v"][1]["v"]]) for x in r[0]["results"]]
+        got = [(D.ident(b, x[-1]["v"][0]), [D.ident(b, k) for k in x[-1]["v"][1]["v"]]) for x in r[0]["results"]]
         exp = [(e["d"], [k["d"] for k in ks]) for e, ks in zip(v["cooked_entries"], v["cooked_kids"])]
         if got != exp:
             vd.observe(key + " cooked children", {"expected": exp, "observed": got, "file": b.path})
         else:
             nok += 1
-        gu = [b.rev.get(D.cst(x[-1]), -1) for x in (r[1] or {}).get("results", [])]
+        gu = [D.ident(b, x[-1]) for x in (r[1] or {}).get("results", [])]
         eu = [v["forest"]["units"][u - 1]["root"] for u in v["cooked_units"]]
         if gu != eu:
             vd.observe(key + " cooked unit listing", {"expected": eu, "observed": gu, "file": b.path})
